@@ -63,7 +63,7 @@ def match_known(kf, prop, unit, failure):
     for e in kf.get('findings', []):
         if e.get('state') != 'open':
             continue
-        if e['property'] != prop or e['unit'] != unit:
+        if prop not in ([e['property']] + e.get('also_properties', [])) or e['unit'] != unit:
             continue
         if e['obligation'] in failure['description'] or e['obligation'] in failure['property']:
             loc = failure.get('location', {})
@@ -169,7 +169,7 @@ def check(prop, tier, only_units=None, seed=0):
             out_lines.append(line)
         for r in undecided:
             out_lines.append('UNDECIDED property=%s unit=%s reason=%s' % (prop, r['name'], (r['reason'] or '')[:300]))
-        write_evidence(prop, tier, seed, results, viol_records, known_hits, time.time() - t0)
+        write_evidence(prop, tier, seed, results, viol_records, known_hits, time.time() - t0, partial=bool(only_units))
         for l in out_lines:
             print(l)
         if violations:
@@ -186,7 +186,7 @@ def check(prop, tier, only_units=None, seed=0):
 PROOF_KINDS = ('P', 'W')
 
 
-def write_evidence(prop, tier, seed, results, viol_records, known_hits, wall):
+def write_evidence(prop, tier, seed, results, viol_records, known_hits, wall, partial=False):
     meta = load_json(os.path.join(VERIF, 'tool', 'props.json'), {}).get(prop, {})
     p_units = [r for r in results if r['kind'] in PROOF_KINDS]
     b_units = [r for r in results if r['kind'] not in PROOF_KINDS]
@@ -238,8 +238,10 @@ def write_evidence(prop, tier, seed, results, viol_records, known_hits, wall):
         cov['explanation'] = cov['explanation'] or 'bounded checks on the real code (CBMC, complete unwinding up to the stated bounds)'
     ev = {'property_id': prop, 'tier': tier, 'seed': seed, 'level': level, 'coverage': cov,
           'assumptions': sorted(assumptions), 'wall_s': round(wall, 1), 'violations': len(viol_records)}
-    os.makedirs(os.path.join(VERIF, 'evidence'), exist_ok=True)
-    with open(os.path.join(VERIF, 'evidence', prop + '.json'), 'w') as fh:
+    # a run restricted with --unit is a development run: it must not replace the property's evidence
+    edir = os.path.join(VERIF, 'build', 'partial-evidence') if partial else os.path.join(VERIF, 'evidence')
+    os.makedirs(edir, exist_ok=True)
+    with open(os.path.join(edir, prop + '.json'), 'w') as fh:
         json.dump(ev, fh, indent=1, sort_keys=True)
 
 
